@@ -311,30 +311,65 @@ def lean_infeasible_cert(V, row, col, S, T):
 # ------------------------------------------------------------------------------------------------
 # running the real evaluator
 
+_PERSONS = {}
+
+
+def _person(prefix, i):
+    """votelib.candidate.Person objects (identity semantics): one object per (prefix, index) for the whole run"""
+    import votelib.candidate
+    key = (prefix, i)
+    if key not in _PERSONS:
+        _PERSONS[key] = votelib.candidate.Person(f'{prefix}{i}')
+    return _PERSONS[key]
+
+
 def _dk(case, i):
-    return i if case.get('keys', 'int').startswith('int') else f'd{i}'
+    k = case.get('keys', 'int')
+    if k.startswith('int'):
+        return i
+    if k == 'empty0':
+        return '' if i == 0 else f'd{i}'
+    if k == 'person_d':
+        return _person('D', i)
+    return f'd{i}'
 
 
 def _pk(case, j):
     k = case.get('keys', 'int')
-    return {'int': P_OFF + j, 'int_clash': j, 'str': f'p{j}', 'str_clash': f'd{j}'}[k]
+    if k == 'int':
+        return P_OFF + j
+    if k == 'int_clash':
+        return j
+    if k == 'str_clash':
+        return f'd{j}'
+    if k == 'empty0p':
+        return '' if j == 0 else f'p{j}'
+    if k == 'person':
+        return _person('P', j)
+    return f'p{j}'
 
 
-def _matrix(case):
-    return [[int(s) for s in r] for r in case['votes']]
+def _num(s):
+    f = Fraction(s)
+    return int(f) if f.denominator == 1 else f
 
 
-def _votes_dict(case):
-    V = _matrix(case)
-    sparse = case.get('sparse', False)
-    return {_dk(case, i): {_pk(case, j): v for j, v in enumerate(r) if not (sparse and v == 0)} for i, r in enumerate(V)}
+def _matrix(case, votes=None):
+    """exact values of the cells: int where integral, else Fraction"""
+    return [[_num(s) for s in r] for r in (case['votes'] if votes is None else votes)]
 
 
-def _apportioner(case):
+def _votes_dict(case, votes=None):
+    V = _matrix(case, votes)
+    sparse = case.get('sparse', False) and votes is None
+    wrap = Fraction if case.get('vtype', 'int') == 'frac' else (lambda v: v)
+    return {_dk(case, i): {_pk(case, j): wrap(v) for j, v in enumerate(r) if not (sparse and v == 0)} for i, r in enumerate(V)}
+
+
+def _apportioner(case, sp=None):
     """(constructor argument `apportioner`, evaluate argument `n_seats`)"""
     import votelib.evaluate.proportional as vp
-    sp = case['seats']
-    m = len(case['votes'])
+    sp = sp or case['seats']
     if sp['kind'] == 'total':
         return None, sp['n']
     if sp['kind'] == 'dict':
@@ -348,12 +383,36 @@ def _apportioner(case):
         return sp['rows'][0], sp['n']
     if a == 'dict':
         return {_dk(case, i): r for i, r in enumerate(sp['rows'])}, sp['n']
+    if a == 'lr_droop':
+        return vp.LargestRemainder('droop'), sp['n']
+    if a == 'qd_hare':
+        return vp.QuotaDistributor('hare'), sp['n']
+    if a == 'ha_same':
+        return vp.HighestAverages(case['divisor']), sp['n']
+    if a == 'dict2':       # apportioner dict AND a per-district n_seats dict: the former gives the district seats, the latter the total
+        return ({_dk(case, i): r for i, r in enumerate(sp['rows'])}, {_dk(case, i): r for i, r in enumerate(sp['nrows'])})
     raise ValueError(a)
 
 
-def _total(case):
-    sp = case['seats']
+def _total(case, sp=None):
+    sp = sp or case['seats']
+    if 'nrows' in sp:
+        return sum(sp['nrows'])
     return sp['n'] if 'n' in sp else sum(sp['rows'])
+
+
+def _ctor_args(case):
+    """(divisor_function argument, extra keyword arguments) as the case's `divspec` asks:
+    name / callable, signpost_q left to the class table or given explicitly (int or Fraction)"""
+    import votelib.component.divisor as vd
+    ds = case.get('divspec', 'name')
+    div = getattr(vd, case['divisor']) if ds.startswith('callable') else case['divisor']
+    kw = {}
+    if ds.endswith('_q'):
+        kw['signpost_q'] = 0 if case['divisor'] == 'd_hondt' else Fraction(1, 2)
+    elif ds.endswith('_qF'):
+        kw['signpost_q'] = Fraction(0) if case['divisor'] == 'd_hondt' else Fraction(1, 2)
+    return div, kw
 
 
 def _make_evaluator(case, log):
@@ -377,7 +436,8 @@ def _make_evaluator(case, log):
             return c
 
     app, n_seats = _apportioner(case)
-    ev = Instrumented(case['divisor'], apportioner=app)
+    div, kw = _ctor_args(case)
+    ev = Instrumented(div, apportioner=app, **kw)
     base_aug = vp.BiproportionalEvaluator._augment_result
     base_quots = vp.BiproportionalEvaluator._calc_quots
 
@@ -412,6 +472,19 @@ def impl(case):
     obs = {}
     try:
         ev, n_seats = _make_evaluator(case, log)
+        # earlier calls: on this very object (state between calls) or on another, differently configured one (class state)
+        for pre in case.get('pre', []):
+            import votelib.evaluate.proportional as vp
+            pv = _votes_dict(case, pre['votes'])
+            papp, pn = _apportioner(case, pre['seats'])
+            try:
+                if pre.get('same', True):
+                    call_with_timeout(lambda: ev.evaluate(pv, pn), 5)
+                else:
+                    call_with_timeout(lambda: vp.BiproportionalEvaluator(pre['divisor'], apportioner=papp).evaluate(pv, pn), 5)
+            except Exception:      # noqa  (a refusal or crash of the earlier call is part of the history)
+                pass
+        log.update({'transfers': 0, 'updates': [], 'init': None, 'pc': None, 'dc': None})
         # the district apportionment the evaluator aims at, by the library's own apportion() call
         try:
             tgt = vcore.apportion(votes, n_seats, ev.apportioner if ev.apportioner is not None else ev._eval)
@@ -454,7 +527,7 @@ def _targets(case, obs):
     sp = case['seats']
     if sp['kind'] == 'total':
         row = ha_ref([sum(r) for r in V], total, case['divisor'])
-    elif sp['kind'] == 'dict' or sp['apportioner'] in ('uniform', 'dict'):
+    elif sp['kind'] == 'dict' or sp['apportioner'] in ('uniform', 'dict', 'dict2'):
         row = list(sp['rows'])
     else:
         ri = obs.get('row_impl')
@@ -484,6 +557,8 @@ def oracle(case, obs):
             return []
         if obs['err'] == 'KeyError' and case.get('sparse') and any(v == 0 for r in V for v in r):
             return [('crash_sparse', f"KeyError {obs.get('msg')} on a district dict that omits a zero cell")]
+        if obs['err'] == 'TypeError' and case.get('keys', 'int').startswith('person') and "'<' not supported" in (obs.get('msg') or ''):
+            return [('crash_unorderable', f"TypeError {obs.get('msg')}: candidate / constituency objects that define no order")]
         return [('crash', f"{obs['err']}: {obs.get('msg')}")]
     X = obs['seats']
     out = []
@@ -537,7 +612,8 @@ def model_line(case):
     if not case.get('keys', 'int').startswith('int'):
         return None          # str keys: frozenset order depends on the hash seed (certificate-checked only)
     sp = case['seats']
-    qv = vp.BiproportionalEvaluator.SIGNPOST_QS.get(case['divisor'])
+    kw = _ctor_args(case)[1]
+    qv = kw['signpost_q'] if 'signpost_q' in kw else vp.BiproportionalEvaluator.SIGNPOST_QS.get(case['divisor'])
     if qv is None or (sp['kind'] != 'total' and 'rows' not in sp):
         return None
     return {'op': 'biprop_eval', 'divisor': case['divisor'], 'q': num_str(Fraction(qv)), 'votes': case['votes'],
